@@ -4,7 +4,7 @@ QUICK_RUNS = 12000
 THOROUGH_BUDGET_S = 600
 RULE = (
     "seeded histories (<=14 ops quick, <=40 thorough) of seek(o,0)/seek(o,1)/cread/creadinto/read_block on a "
-    "FilReader over 1-3 harness-written SIGPROC files (depth 1..32 bit, per-file header lengths differ), arguments "
+    "FilReader over 1-3 harness-written SIGPROC files (depth 1..32 bit, per-file header lengths differ; 3% of runs (10% thorough) use 600-3000 samples x 64-1024 channels so that single reads span many kB), arguments "
     "biased to every file boundary +-1, the last byte and out-of-range values; fault runs add R1 short readinto, "
     "R2 EIO, R3 readinto->None at addressed I/O calls. A run is non-trivial when at least one read returned data "
     "and was compared with the byte model; distinct = distinct event-log digests among those."
@@ -13,7 +13,7 @@ PROBES = [
     "read-ends-at-boundary", "relseek-back-across-boundary", "read-spans-two-boundaries", "cread0",
     "eos-short-buffer-read", "fault-between-reads-of-one-op", "counted-read-past-end-raises",
     "out-of-range-seek-raises", "out-of-range-read_block-raises", "multi-file", "sub-byte",
-    "resync-after-raise",
+    "resync-after-raise", "big-blocks",
 ]
 COMPONENTS = {
     "real": ["sigpyproc.io.fileio.FileReader (seek/cread/creadinto/_seek2hdr/_seek_set/cur_data_pos_stream)",
